@@ -458,7 +458,6 @@ fn remove_inode_body(base: u8) {
 }
 
 op_harness! { fn root_remove_inode_base() { remove_inode_body(P_OK); } }
-op_harness! { fn root_remove_inode_okpath() { kmut().no_fail = true; remove_inode_body(P_OK); } }
 op_harness! { fn root_remove_inode_nobase() { remove_inode_body(P_FAIL); } }
 
 fn root_rename_body(b0: u8, b1: u8) {
@@ -688,7 +687,21 @@ fn ref_components(b: &[u8]) -> Comps {
 }
 
 fn mkdir_all_body(scen: u64) {
+    mkdir_all_body_p(scen, [P_ANY; 8], 0)
+}
+
+/// plan: fault plan for [0] reopen, then (mkdirat, openat) per component
+fn mkdir_all_body_p(scen: u64, plan: [u8; 8], fixed_errno: i32) {
     let (rootfd, root) = setup();
+    {
+        let k = kmut();
+        let mut i = 0;
+        while i < 8 {
+            k.plan[i] = plan[i];
+            i += 1;
+        }
+        k.fixed_errno = fixed_errno;
+    }
     let tail = SymPath::any();
     crate::verif_kani::kernel::scratch_set(scen, 0, 0, 0);
     crate::verif_kani::kernel::tail_set(&tail.buf, tail.len);
@@ -789,6 +802,31 @@ macro_rules! mk_h {
         }
     };
 }
+macro_rules! mk_p {
+    ($name:ident, $plan:expr, $errno:expr) => {
+        #[kani::proof]
+        #[kani::unwind(8)]
+        #[kani::stub(crate::resolvers::Resolver::resolve_partial, k_resolve_partial)]
+        #[kani::stub(crate::handle::Handle::reopen, crate::handle::Handle::k_handle_reopen)]
+        #[kani::stub(<std::os::unix::io::BorrowedFd<'static> as crate::utils::FdExt>::as_unsafe_path_unchecked, k_unsafe_path_unchecked)]
+        #[kani::stub(crate::syscalls::mkdirat, k_mkdirat)]
+        #[kani::stub(crate::syscalls::openat_follow, k_openat_follow)]
+        #[kani::stub(mc::memchr::memchr, k_memchr)]
+        #[kani::stub(mc::memchr::memrchr, k_memrchr)]
+        #[kani::stub(alloc::fmt::format, k_format)]
+        fn $name() {
+            mkdir_all_body_p(1, $plan, $errno);
+        }
+    };
+}
+// every kernel step succeeds; the tail (every byte string <= L) and the mode are symbolic
+mk_p!(root_mkdir_all_tail_ok, [P_OK; 8], 0);
+// the first mkdirat answers EEXIST (racing creator / already there): tolerated
+mk_p!(root_mkdir_all_tail_eexist, [P_OK, P_FAIL, P_OK, P_OK, P_OK, P_OK, P_OK, P_OK], libc::EEXIST);
+// the first mkdirat fails with EACCES: abort with that errno, nothing else done
+mk_p!(root_mkdir_all_tail_mkdir_fails, [P_OK, P_FAIL, P_OK, P_OK, P_OK, P_OK, P_OK, P_OK], libc::EACCES);
+// the open of the freshly created first component fails (swapped for a non-directory): abort
+mk_p!(root_mkdir_all_tail_open_fails, [P_OK, P_OK, P_FAIL, P_OK, P_OK, P_OK, P_OK, P_OK], libc::ENOTDIR);
 mk_h!(root_mkdir_all_complete, 0);
 mk_h!(root_mkdir_all_tail, 1);
 mk_h!(root_mkdir_all_partial_other_error, 2);
